@@ -17,6 +17,8 @@ func init() {
 			"D1 points streamed between nodes keep every attribute: for the five point types, encode<T>Point reads every field of the point struct, decode<T>Point sets every field, and the stream decoder Decode<T>Point hands the caller either the whole decoded struct or a field-wise copy that covers every field; the request codecs that carry a statement to another node (iterator options, interval, variable reference, measurement, iterator statistics) restore exactly the Go fields they read and read exactly the wire fields they set; " +
 			"D2 cache/file merge of the storage cursors: for each of the ten next<T> functions the behaviour on every weak ordering of (cache key, file key, EOF) equals the table {both exhausted: EOF, no advance; equal keys: cache value, both advance; cache first in the direction of the cursor or file exhausted: cache value, cache advances; otherwise file value, file advances}; " +
 			"D3 ascending and descending are mirror images: wherever a function orders things under opt.Ascending and under !opt.Ascending (if/else arms, '&&' alternatives, the ascending/descending cursor siblings), the sequences of comparisons agree with < and >, <= and >= exchanged. " +
+			"D4 the type of a merged iterator does not depend on the arrival order of the inputs: the reader of a remote answer without data (a placeholder that claims a typed iterator interface) is recognised by Iterators.dataType, while ClusterShardMapping.CreateIterator collects its inputs inside goroutines (found and fixed in 883e4b4). " +
+			"D5 a series is its name AND its tag set: every condition that compares both for one pair of subjects joins 'name differs' and 'tags differ' with ||, or 'equal' and 'equal' with && (13 sites); D6 every fan-out of the cluster mappings asks every remote shard group before it may return a result, unless the path established that there are none (shared with C05 D7). " +
 			"NOT decided: window arithmetic, fill values, aggregate functions, limit/offset, equality of multi-shard and single-shard results.",
 		RuleText:    "obligation = (rule, function | struct field | site); struct-field coverage of codecs; marked path exploration + exhaustive evaluation of the compiled path conditions over all weak orderings; comparison-sequence mirror agreement",
 		Assumptions: commonAssumptions,
@@ -29,6 +31,166 @@ func runC11(c *core.Ctx) {
 	c.Clause("D1", func() { runPointCodecCompleteness(c) })
 	c.Clause("D2", func() { runCursorMergeTable(c) })
 	c.Clause("D3", func() { runDirectionMirror(c) })
+	c.Clause("D4", func() { runMergeTypeOrderIndependent(c) })
+	c.Clause("D5", func() { runSeriesIdentityTests(c) })
+	c.Clause("D6", func() { runEveryRemoteGroupConsulted(c) })
+}
+
+// runSeriesIdentityTests: a series is identified by its name AND its tag set. Wherever one condition compares
+// both for the same pair of subjects, "another series" must be `name differs || tags differ` and "the same
+// series" must be `names equal && tags equal`; `!= && !=` (or `== || ==`) treats two series that share the name
+// or the tag set as one: values leak from one series into the next (fill(previous), multi-call selects).
+func runSeriesIdentityTests(c *core.Ctx) {
+	n := 0
+	isName := func(x ast.Expr) bool {
+		return strings.HasSuffix(strings.ToLower(core.ExprStr(x)), "name")
+	}
+	isTags := func(x ast.Expr) bool {
+		s := core.ExprStr(x)
+		return strings.HasSuffix(s, ".ID()") && (strings.Contains(s, "Tags") || strings.Contains(s, "tags"))
+	}
+	for _, rel := range []string{"query", coord, "tsdb", tsm1} {
+		for _, f := range c.P.FuncsIn(rel) {
+			if f.Body == nil {
+				continue
+			}
+			k := 0
+			ast.Inspect(f.Body, func(nd ast.Node) bool {
+				if _, ok := nd.(*ast.FuncLit); ok {
+					return false
+				}
+				be, ok := nd.(*ast.BinaryExpr)
+				if !ok || be.Op != token.LAND && be.Op != token.LOR {
+					return true
+				}
+				// flatten the maximal chain of this operator
+				var ops []ast.Expr
+				var flat func(x ast.Expr)
+				flat = func(x ast.Expr) {
+					if b, ok := ast.Unparen(x).(*ast.BinaryExpr); ok && b.Op == be.Op {
+						flat(b.X)
+						flat(b.Y)
+						return
+					}
+					ops = append(ops, ast.Unparen(x))
+				}
+				flat(be)
+				var nameOp, tagsOp token.Token
+				for _, o := range ops {
+					cmp, ok := o.(*ast.BinaryExpr)
+					if !ok || cmp.Op != token.EQL && cmp.Op != token.NEQ {
+						continue
+					}
+					if isName(cmp.X) && isName(cmp.Y) {
+						nameOp = cmp.Op
+					} else if isTags(cmp.X) || isTags(cmp.Y) {
+						tagsOp = cmp.Op
+					}
+				}
+				if nameOp == 0 || tagsOp == 0 || nameOp != tagsOp {
+					return false
+				}
+				k++
+				n++
+				good := nameOp == token.NEQ && be.Op == token.LOR || nameOp == token.EQL && be.Op == token.LAND
+				c.Check("series-identity-is-name-and-tags", fmt.Sprintf("%s/test#%d", f.Name, k), c.P.Pos(be.Pos()), good,
+					fmt.Sprintf("the condition combines 'name %s ..' and 'tags %s ..' with %s: two series that share only the name or only the tag set are treated as the same series (or a change of series goes unnoticed)", nameOp, tagsOp, be.Op))
+				return false
+			})
+		}
+	}
+	c.Floor("conditions that compare name and tag set together", n, 6)
+}
+
+// runMergeTypeOrderIndependent: inputs of a cluster query arrive in goroutine completion order, and
+// Iterators.dataType/coerce decide the type of the merged iterator and drop every input of another type. The
+// reader of a remote answer without data ("type unknown") is a placeholder that claims one of the typed
+// iterator interfaces; it must be recognised where the type is decided, otherwise an empty remote answer that
+// arrives first makes the merge drop all real inputs of another type.
+func runMergeTypeOrderIndependent(c *core.Ctx) {
+	nr := c.Fn("query.NewReaderIterator")
+	info := nr.Info()
+	// placeholder types: what the arm for an unknown type returns
+	var placeholders []*types.Named
+	ast.Inspect(nr.Body, func(nd ast.Node) bool {
+		cc, ok := nd.(*ast.CaseClause)
+		if !ok || cc.List != nil {
+			return true
+		}
+		ast.Inspect(cc, func(x ast.Node) bool {
+			if cl, ok := x.(*ast.CompositeLit); ok {
+				if nt, ok := info.TypeOf(cl).(*types.Named); ok {
+					placeholders = append(placeholders, nt)
+				}
+			}
+			return true
+		})
+		return true
+	})
+	dt := c.Fn("query.Iterators.dataType")
+	dinfo := dt.Info()
+	mentioned := map[*types.Named]bool{}
+	ast.Inspect(dt.Body, func(nd ast.Node) bool {
+		var tx ast.Expr
+		switch x := nd.(type) {
+		case *ast.TypeAssertExpr:
+			tx = x.Type
+		case *ast.CaseClause:
+			for _, e := range x.List {
+				if t := dinfo.TypeOf(e); t != nil {
+					if p, ok := t.(*types.Pointer); ok {
+						if nt, ok := p.Elem().(*types.Named); ok {
+							mentioned[nt] = true
+						}
+					}
+				}
+			}
+		}
+		if tx != nil {
+			if t := dinfo.TypeOf(tx); t != nil {
+				if p, ok := t.(*types.Pointer); ok {
+					if nt, ok := p.Elem().(*types.Named); ok {
+						mentioned[nt] = true
+					}
+				}
+			}
+		}
+		return true
+	})
+	n := 0
+	for _, ph := range placeholders {
+		typed := ""
+		for _, T := range fiveTypes {
+			it := c.P.LookupType("query", T+"Iterator")
+			if it == nil {
+				continue
+			}
+			if iface, ok := it.Underlying().(*types.Interface); ok && types.Implements(types.NewPointer(ph), iface) {
+				typed = T + "Iterator"
+			}
+		}
+		if typed == "" {
+			continue
+		}
+		n++
+		c.Check("no-data-placeholder-does-not-decide-merge-type", "query."+ph.Obj().Name(), dt.PosStr(), mentioned[ph],
+			fmt.Sprintf("the reader of a remote answer without data is a *%s, which claims to be a %s; Iterators.dataType decides the merged type without recognising it, and inputs arrive in goroutine completion order: when the empty answer comes first every real input of another type is closed and dropped, so the result depends on timing and on which node holds the data", ph.Obj().Name(), typed))
+	}
+	c.Counts["typed_placeholders"] = n
+	// the premise: the cluster mapping collects its inputs inside goroutines (so their order is not fixed)
+	cm := c.Fn(coord + ".(*ClusterShardMapping).CreateIterator")
+	inGo := 0
+	for _, l := range cm.Lits {
+		ast.Inspect(l.Body, func(nd ast.Node) bool {
+			if ce, ok := nd.(*ast.CallExpr); ok {
+				if b, ok := core.Callee(l.Info(), ce).(*types.Builtin); ok && b.Name() == "append" {
+					inGo++
+				}
+			}
+			return true
+		})
+	}
+	c.Floor("appends to the merge inputs inside goroutine closures", inGo, 2)
 }
 
 // ---- D1 ----------------------------------------------------------------------------------------------
